@@ -50,6 +50,10 @@ type Join struct {
 	DstInit []world.Spec `json:"dst_init"`
 	Acts    []JAct       `json:"acts"`
 	Cycles  int          `json:"cycles"` // additional create/close cycles over the long-lived base controllers
+	// DeadBase ("src" | "mid" | "dst"): that base controller is shut down before
+	// the join is built over all of them; whatever the constructor returns, the
+	// other bases (their own trees) are not touched by its unwinding
+	DeadBase  string     `json:"dead_base,omitempty"`
 	HotCycles bool       `json:"hot_cycles,omitempty"` // each of those joins is created while a source change is in flight
 	Bufsiz  int          `json:"bufsiz,omitempty"` // EventBufsiz of the run (0 = 100)
 	SrcCancelAtStep int  `json:"src_cancel_at_step,omitempty"` // > 0: the join is attached at once and the SOURCE base's context is cancelled that many steps later (around its readiness): the join must stay open
@@ -717,6 +721,55 @@ func (e *joinEnv) sourceDies() {
 	checkNoLeak()
 }
 
+// deadBase: a join constructor called with one base controller already shut
+// down.  Shutdown is confined to the subtree of what was closed: the other
+// base controllers - independent trees - keep running and keep serving.
+func (e *joinEnv) deadBase() {
+	for i, b := range e.bases {
+		if !world.WaitClosed(b.Ready(), time.Second) {
+			detsim.Fail("not-ready", "base controller %d not ready", i)
+		}
+	}
+	idx := len(e.bases) - 1
+	switch e.sc.DeadBase {
+	case "src":
+		idx = 0
+	case "mid":
+		if len(e.bases) == 3 {
+			idx = 1
+		}
+	}
+	e.bases[idx].Close()
+	if !world.WaitClosed(e.bases[idx].Done(), time.Millisecond) {
+		detsim.Fail("hang:Done", "base controller %d: Done() open after Close()", idx)
+	}
+	detsim.Count("probe:join-built-over-a-dead-base")
+	e.jctx = e.ctx
+	rv, err := e.mk()
+	detsim.Settle()
+	if err == nil {
+		rv.close()
+		detsim.Settle()
+	}
+	for i, b := range e.bases {
+		if i == idx {
+			continue
+		}
+		if detsim.IsClosed(b.Done()) {
+			detsim.Fail("shutdown-spread", "join(%s) was built with base controller %d shut down (constructor returned %v): base controller %d, an independent tree, has been shut down with it", e.sc.Kind, idx, err, i)
+		}
+		res := reflect.ValueOf(b).MethodByName("Cache").Call(nil)[0].MethodByName("List").Call(nil)
+		if !res[1].IsNil() {
+			detsim.Fail("survivor-not-functional", "join(%s) was built with base controller %d shut down: Cache().List() of base controller %d now fails with %v", e.sc.Kind, idx, i, res[1].Interface())
+		}
+	}
+	for _, b := range e.bases {
+		b.Close()
+	}
+	detsim.Settle()
+	checkNoLeak()
+}
+
 func specsOfObjs(objs []metav1.Object) []world.Spec {
 	var out []world.Spec
 	for _, o := range objs {
@@ -738,6 +791,10 @@ func runJoin(sci interface{}) {
 	defer cancel()
 	e.srcCtx, e.srcCancel = context.WithCancel(e.ctx)
 	e.setup()
+	if sc.DeadBase != "" {
+		e.deadBase()
+		return
+	}
 	if sc.SrcCancelAtStep > 0 {
 		e.sourceDies()
 		return
@@ -947,6 +1004,9 @@ func genJoin(g GenCtx, kind string, overrun bool) *Join {
 	sc.OwnCtx = rng.Intn(4) == 0
 	if rng.Intn(8) == 0 {
 		sc.SrcCancelAtStep = 1 + rng.Intn(pickInt(rng, 60, 200, 500))
+	}
+	if sc.SrcCancelAtStep == 0 && rng.Intn(12) == 0 {
+		sc.DeadBase = pick(rng, "src", "mid", "dst", "dst")
 	}
 	sc.CloseDst = rng.Intn(3) == 0
 	if rng.Intn(3) == 0 {
